@@ -196,8 +196,9 @@ CHECKS = {
                 "x header mode x target (file, BytesIO, multi-volume) x block size x member shapes.",
         "note": "Trusted: Coq kernel; hand models Comp/Decomp/Aes tied by correspondence, AES buffering and calculate_crc32 additionally by "
                 "the translator; codec libraries are hypotheses (validated, not proved). Partial: the codecs themselves and the header "
-                "path (C06/C07/C17). Ten known findings (short reads, AES small chunks, Brotli/BCJ before AES, PPMd chunk contract, "
-                "multi-volume recursion).",
+                "path (C06/C07/C17). Seven defects found here were repaired in the repository (short reads, AES small chunks, AES padding "
+                "reaching Brotli/BCJ, PPMd encoder slices, false stall); known findings that remain are third-party faults (pybcj tail, "
+                "pyppmd decoder race, multivolumefile recursion) and one two-coder/16-byte-block EOFError.",
         "technique": "Coq proof of the compress/decompress state machines parametric in the codecs + translator tie for AES buffering/CRC + session exploration",
     },
     "C04": {
